@@ -1,0 +1,16 @@
+//go:build verif
+
+package node
+
+import "github.com/Oneledger/protocol/data/keys"
+
+// NewVerifContext builds a node Context from in-memory keys (the verification harness
+// has no key files).
+func NewVerifContext(name string, nodeKey, validatorKey, ecdsaKey keys.PrivateKey) *Context {
+	return &Context{
+		NodeName:     name,
+		privateKey:   nodeKey,
+		privval:      validatorKey,
+		ecdsaPrivVal: ecdsaKey,
+	}
+}
